@@ -29,7 +29,7 @@ PROPS = {
                 level="exploration", faults=True, batch=10),
     "C11": dict(engine="store", gen="gen_c11", nops=(2, 4), runs={"quick": 256, "thorough": 5000},
                 level="exploration", batch=4, timeout=600, continue_after_violation=True),
-    "C13": dict(engine="store", special="c13", nops=(1, 1), runs={"quick": 96, "thorough": 1600},
+    "C13": dict(engine="store", special="c13", nops=(1, 1), runs={"quick": 64, "thorough": 1600},
                 level="fault_enumeration", batch=2, timeout=900),
     "C02": dict(engine="store", gen="gen_c02", nops=(3, 9), runs={"quick": 560, "thorough": 10000},
                 level="exploration", faults=True, batch=8),
@@ -207,15 +207,22 @@ def evidence(prop, tier, seed, summaries, wall, nviol, others, known_hits, harne
     if not samples:
         samples = [s.get("sample") or s.get("ops") for s in summaries[:3]]
     n = len(summaries)
+    evaluations, distinct = n, len(sigs)
+    rule = cfg.get("rule", RULE_STORE)
+    if prop == "C13":
+        evaluations = stats.get("placements", 0) + stats.get("workloads", 0)
+        distinct = len(states)
+        rule = RULE_C13
     return {
         "property_id": prop,
         "tier": tier,
         "seed": seed,
         "level": cfg["level"],
         "coverage": {
-            "evaluations": n,
-            "distinct_nontrivial": len(sigs),
-            "rule": cfg.get("rule", RULE_STORE),
+            "evaluations": evaluations,
+            "distinct_nontrivial": distinct,
+            "rule": rule,
+            "simulated_runs": n,
             "samples": samples,
             "operations_executed": nops,
             "scheduler_steps": steps,
@@ -247,6 +254,19 @@ RULE_STORE = (
     "was read back and compared, and (for fault properties) at least one injected fault actually fired. "
     "distinct_nontrivial counts distinct run signatures = hash of the per-operation sequence of "
     "(operation kind, fault kind, abstract model state) among non-trivial runs."
+)
+
+RULE_C13 = (
+    "Each simulated run is one workload: a file populated with 0-3 neighbour collections, links and planted "
+    "content, plus one producing operation (ordered/unordered create, merge, coarsen with or without simulated "
+    "workers, scool) aimed at a new file, a new group, an existing non-cooler object, the root, or an existing "
+    "cooler. Within the workload the fault placements are ENUMERATED: every F1 (kind x chunk x first/mid/last), "
+    "every F2 index, every F4 open index, every F6 task index (capped per workload; the cap is reported in "
+    "probes_and_stats as placements), F3 interrupts at stratified traced line events (all of them in the thorough "
+    "tier when the workload has <= 1500), and an F5 process-kill snapshot at every close of a write handle of "
+    "every execution. evaluations = faulted executions + fault-free passes. distinct_nontrivial is counted "
+    "conservatively as the number of distinct (operation kind, fault kind, abstract model state) signatures "
+    "reached, not the number of placements."
 )
 
 ASSUMPTIONS = [
